@@ -346,3 +346,106 @@ def mem_invariant(facts):
         else:
             raise Tooling("anchor lost: SimpleGseMemory.frags / max_frag_id shape changed")
     return assume
+
+
+# ---------------------------------------------------------------------- sender side
+LABEL_LEN = {'SixBytesLabel': 6, 'ThreeBytesLabel': 3, 'Broadcast': 0, 'ReUse': 0}     # ETSI TS 102 606, table 2
+GEN_HDR = 'gse_encap::generate_gse_header'
+
+
+def ghost(w, name):
+    return w.mem.get(('G', name))
+
+
+def encap_cfg(facts, out_buffer_root=None, extra=None):
+    """configuration for analysing the writers: ghost variables record the arguments of the
+    generate_gse_header call and the intervals written into the output buffer"""
+    holder = {'buf': out_buffer_root}
+
+    def on_header(I, w, frame, site, key, args):
+        # args: &PktType, &LabelType, gse_len:u16
+        kind = I.read(w, args[0][1]) if args[0][0] == 'ref' else None
+        lt = I.read(w, args[1][1]) if args[1][0] == 'ref' else None
+        n = w.mem.get(('G', 'hdr_calls'), ('int', Lin.c(0)))
+        w.mem[('G', 'hdr_calls')] = ('int', n[1] + 1)
+        w.mem[('G', 'hdr_kind')] = kind if kind is not None else ('top', None, 'ghost', 'kind')
+        w.mem[('G', 'hdr_lt')] = lt if lt is not None else ('top', None, 'ghost', 'lt')
+        w.mem[('G', 'hdr_len')] = args[2]
+
+    def on_write(I, w, frame, site, base, start, ln, src):
+        if holder['buf'] is None or base.root != holder['buf'] or base.path:
+            return
+        cur = w.mem.get(('G', 'writes'), ('agg', ()))
+        if cur[0] != 'agg':
+            return
+        w.mem[('G', 'writes')] = ('agg', cur[1] + (('agg', (('int', start), ('int', ln))),))
+
+    cfg = {'kslots': 2, 'call_hooks': {GEN_HDR: on_header}, 'write_hook': on_write, '_holder': holder}
+    if extra:
+        cfg.update(extra)
+    return cfg
+
+
+def analyse_writer(ck, key, tag='', extra=None):
+    """analyse an emitter (function with a `buffer: &mut [u8]` parameter) with the ghosts on"""
+    cfg = encap_cfg(ck.facts, extra=extra)
+
+    def bind(I, w, args):
+        body = ck.facts.body(key)
+        for i in range(1, body.arg_count + 1):
+            if body.local_names.get(i) == 'buffer':
+                cfg['_holder']['buf'] = args[i - 1][1].root
+    return ck.analyse(key, cfg, assume=bind, tag=tag)
+
+
+def ret_alts(rv):
+    """[(variant idx, payload fields)] of a Result-like return value"""
+    if rv[0] != 'enum':
+        return None
+    return list(rv[1])
+
+
+def same_or_refined(init, final, w=None):
+    """final is the initial value, or a refinement of it (fewer enum alternatives, an atom the
+    store pins to the same value)"""
+    if init == final:
+        return True
+    if init[0] == 'int' and final[0] == 'int' and w is not None:
+        return w.store.entails_eq(init[1], final[1])
+    if init[0] == 'enum' and final[0] == 'enum':
+        di = dict(init[1])
+        for v, fs in final[1]:
+            if v not in di or len(di[v]) != len(fs):
+                return False
+            if not all(same_or_refined(a, b, w) for a, b in zip(di[v], fs)):
+                return False
+        return True
+    if init[0] == 'agg' and final[0] == 'agg' and len(init[1]) == len(final[1]):
+        return all(same_or_refined(a, b, w) for a, b in zip(init[1], final[1]))
+    if init[0] == 'top' and final[0] != 'moved':
+        # the initial unknown was only looked at (expanded), never assigned: expansion keeps
+        # the value; assignments create values with different provenance
+        return final[0] in ('agg', 'enum', 'int', 'bool') and _only_expansion(init, final)
+    return False
+
+
+def _only_expansion(init, final):
+    name = init[3] if len(init) > 3 else None
+    if name is None:
+        return False
+    return _mentions_origin(final, name)
+
+
+def _mentions_origin(v, name):
+    t = v[0]
+    if t == 'top':
+        return len(v) > 3 and str(v[3]).startswith(name)
+    if t == 'int':
+        return all(ATOMS.info(a).name.startswith(name) for a in v[1].atoms()) and bool(v[1].atoms())
+    if t == 'agg':
+        return all(_mentions_origin(x, name) for x in v[1])
+    if t == 'enum':
+        return all(_mentions_origin(x, name) for _, fs in v[1] for x in fs)
+    if t == 'bool':
+        return True
+    return False
